@@ -459,3 +459,138 @@ Proof.
   - intros i Hin. rewrite A1, A2, A3. exact (A5 i Hin).
   - intros i Hin. rewrite A1, A2. exact (forward_reads_sources _ _ _ Hf i Hin).
 Qed.
+
+(* ---- the way back into ANOTHER source structure ------------------------------------------------------------------
+   [transports o fp]: putting into m2 the value read from m copies the bytes of the focus from m to m2.  It holds for
+   positional optics, is kept by BiMap with g after f = id and by Join over a positional outer optic. *)
+Definition transports (o : optic) (fp : list (nat * nat)) : Prop :=
+  forall m m2 s a m2', List.length m2 = List.length m -> oget o m s = Ok a -> oput o m2 s a = Ok m2' ->
+    forall k, inside fp s k -> nth_error m2' k = nth_error m k.
+
+Lemma window_transports : forall o off n, window o off n -> transports o [(off, n)].
+Proof.
+  intros o off n W m m2 s a m2' Hl Hg Hp k (r & Hr & Hk). destruct Hr as [Hr|[]]. subst r. cbn [fst snd] in Hk.
+  pose proof (w_get _ _ _ W _ _ _ Hg) as L. destruct (load_some _ _ _ _ L) as (_ & _ & N).
+  pose proof (w_put _ _ _ W _ _ _ _ N Hp) as S.
+  replace k with (s + off + (k - (s + off))) by lia.
+  rewrite (store_nth_inside _ _ _ _ S) by lia. apply (load_nth _ _ _ _ L). lia.
+Qed.
+
+Lemma field_transports : forall l, transports (Field l) [(e_off (l_t l) + e_root (l_t l), sizeof (l_A l))].
+Proof. intro l. exact (window_transports _ _ _ (window_field l)). Qed.
+
+Lemma chain_transports : forall o, is_chain o = true -> transports o (footprint o).
+Proof.
+  intros o H. destruct (chain_window o H) as (W & _ & F). rewrite F. exact (window_transports _ _ _ W).
+Qed.
+
+Lemma bimap_transports :forall o f g nA fp, lawful o nA -> (forall a, List.length a = nA -> g (f a) = a) ->
+  transports o fp -> transports (BiMap o f g) fp.
+Proof.
+  intros o f g nA fp L Hgf T m m2 s a m2' Hl Hg Hp. cbn [oget oput] in *.
+  destruct (oget o m s) as [a0|] eqn:E; cbn in Hg; [|discriminate]. inversion Hg; subst a.
+  rewrite (Hgf a0 (get_len _ _ L _ _ _ E)) in Hp. exact (T m m2 s a0 m2' Hl E Hp).
+Qed.
+
+Lemma join_transports : forall a b offA nA fpB, window a offA nA -> transports b fpB ->
+  (forall r, In r fpB -> fst r + snd r <= nA) ->
+  transports (Join a b) (shift offA fpB).
+Proof.
+  intros a b offA nA fpB Wa Tb Hfit m m2 s x m2' Hl Hg Hp k (r' & Hr' & Hk). cbn [oget oput] in *.
+  apply in_map_iff in Hr'. destruct Hr' as (r & Er & Hr). subst r'. cbn [fst snd] in Hk.
+  destruct (oget a m s) as [va|] eqn:Ea; cbn [bind] in Hg; [|discriminate].
+  destruct (oget a m2 s) as [va2|] eqn:Ea2; cbn [bind] in Hp; [|discriminate].
+  destruct (oput b va2 0 x) as [va2'|] eqn:Eb; cbn [bind] in Hp; [|discriminate].
+  pose proof (w_get _ _ _ Wa _ _ _ Ea) as L1. destruct (load_some _ _ _ _ L1) as (_ & _ & N1).
+  pose proof (w_get _ _ _ Wa _ _ _ Ea2) as L2. destruct (load_some _ _ _ _ L2) as (_ & _ & N2).
+  pose proof (oput_length _ _ _ _ _ Eb) as N3.
+  assert (S : store m2 (s + offA) va2' = Some m2') by (apply (w_put _ _ _ Wa); [congruence|exact Hp]).
+  pose proof (Hfit r Hr) as Hf.
+  replace k with (s + offA + (k - (s + offA))) by lia.
+  rewrite (store_nth_inside _ _ _ _ S) by lia. rewrite <- (load_nth _ _ _ _ L1) by lia.
+  apply (Tb va va2 0 x va2'); [congruence|exact Hg|exact Eb|]. exists r. split; [exact Hr|]. lia.
+Qed.
+
+Lemma inside_app : forall fp1 fp2 s i, inside (fp1 ++ fp2) s i <-> inside fp1 s i \/ inside fp2 s i.
+Proof.
+  intros fp1 fp2 s i. split.
+  - intros (r & Hr & Hk). apply in_app_or in Hr. destruct Hr as [Hr|Hr]; [left|right]; exists r; split; assumption.
+  - intros [(r & Hr & Hk)|(r & Hr & Hk)]; exists r; (split; [apply in_or_app|exact Hk]); [left|right]; exact Hr.
+Qed.
+
+Lemma inside_or_outside : forall fp s i, inside fp s i \/ outside fp s i.
+Proof.
+  induction fp as [|r fp IH]; intros s i; [right; intros r []|].
+  destruct (IH s i) as [H|H]; [left; apply (inside_app [r] fp); right; exact H|].
+  destruct (Nat.lt_ge_cases i (s + fst r)) as [H1|H1].
+  - right. intros r' [E|Hr']; [subst r'; left; exact H1|exact (H r' Hr')].
+  - destruct (Nat.lt_ge_cases i (s + fst r + snd r)) as [H2|H2].
+    + left. exists r. split; [left; reflexivity|lia].
+    + right. intros r' [E|Hr']; [subst r'; right; exact H2|exact (H r' Hr')].
+Qed.
+
+(* Inverse into any arena m2 of the size of the source: when the target foci hold the source foci of S, every byte of a
+   source focus becomes that of S and every other byte stays as it was in m2 *)
+Lemma inverse_transport : forall (nof : iso -> nat) (sfp : iso -> list (nat * nat)) S P T Q seq,
+  (forall i, In (Some i) seq -> lawful (i_sa i) (nof i) /\ framed (i_sa i) (nof i) (sfp i) /\ transports (i_sa i) (sfp i)) ->
+  (forall i, In (Some i) seq -> oget (i_ta i) T Q = oget (i_sa i) S P) ->
+  forall m2 w2, List.length m2 = List.length S -> morphism_inverse seq (mkTwo m2 P T Q) = Ok w2 ->
+  mt w2 = T /\ ps w2 = P /\ pt w2 = Q /\ List.length (ms w2) = List.length m2 /\
+  (forall k, inside (flat_map sfp (isos seq)) P k -> nth_error (ms w2) k = nth_error S k) /\
+  (forall k, outside (flat_map sfp (isos seq)) P k -> nth_error (ms w2) k = nth_error m2 k).
+Proof.
+  intros nof sfp S P T Q seq. induction seq as [|[i|] r IH]; intros Hok He m2 w2 Hl H.
+  - cbn in H. inversion H; subst. cbn. repeat split; try reflexivity. intros k (r & [] & _).
+  - cbn [morphism_inverse] in H. unfold iso_inverse in H. cbn [ms ps mt pt] in H.
+    rewrite (He i (or_introl eq_refl)) in H.
+    destruct (oget (i_sa i) S P) as [a|] eqn:Ea; cbn [bind] in H; [|discriminate].
+    destruct (oput (i_sa i) m2 P a) as [m2'|] eqn:Ep; cbn [bind] in H; [|discriminate].
+    destruct (Hok i (or_introl eq_refl)) as (Ls & Fs & Ts).
+    pose proof (oput_length _ _ _ _ _ Ep) as Lp. pose proof (get_len _ _ Ls _ _ _ Ea) as La.
+    assert (Hok' : forall j, In (Some j) r ->
+              lawful (i_sa j) (nof j) /\ framed (i_sa j) (nof j) (sfp j) /\ transports (i_sa j) (sfp j))
+      by (intros j Hj; apply Hok; right; exact Hj).
+    assert (He' : forall j, In (Some j) r -> oget (i_ta j) T Q = oget (i_sa j) S P)
+      by (intros j Hj; apply He; right; exact Hj).
+    destruct (IH Hok' He' m2' w2 (eq_trans Lp Hl) H) as (A1 & A2 & A3 & A4 & A5 & A6).
+    split; [exact A1|]. split; [exact A2|]. split; [exact A3|]. split; [congruence|].
+    change (flat_map sfp (isos (Some i :: r))) with (sfp i ++ flat_map sfp (isos r)). split.
+    + intros k Hk. destruct (inside_or_outside (flat_map sfp (isos r)) P k) as [Hr|Hr]; [exact (A5 k Hr)|].
+      apply inside_app in Hk. destruct Hk as [Hk|Hk]; [|exact (A5 k Hk)].
+      rewrite (A6 k Hr). exact (Ts S m2 P a m2' Hl Ea Ep k Hk).
+    + intros k Hk. apply outside_app in Hk. destruct Hk as [K1 K2].
+      rewrite (A6 k K2). exact (Fs _ _ _ _ La Ep k K1).
+  - cbn [morphism_inverse] in H. apply IH; try assumption; intros j Hj; [apply Hok|apply He]; right; exact Hj.
+Qed.
+
+(* morphism_transport: Forward (s, t) then Inverse (t, s2) into another structure s2 of the same size gives every source
+   focus of s2 the bytes it has in s and leaves every other byte of s2 alone; again no disjointness of SOURCE foci *)
+Theorem morphism_transport : forall (nof : iso -> nat) (sfp tfp : iso -> list (nat * nat)) seq,
+  (forall i, In (Some i) seq ->
+     focused (i_sa i) (nof i) (sfp i) /\ transports (i_sa i) (sfp i) /\ focused (i_ta i) (nof i) (tfp i)) ->
+  (forall i j, In (Some i) seq -> In (Some j) seq -> i = j \/ disjoint_fp (tfp i) (tfp j)) ->
+  forall w w1 m2 w2, List.length m2 = List.length (ms w) ->
+  morphism_forward seq w = Ok w1 -> morphism_inverse seq (mkTwo m2 (ps w) (mt w1) (pt w1)) = Ok w2 ->
+  mt w2 = mt w1 /\ List.length (ms w2) = List.length m2 /\
+  (forall k, inside (flat_map sfp (isos seq)) (ps w) k -> nth_error (ms w2) k = nth_error (ms w) k) /\
+  (forall k, outside (flat_map sfp (isos seq)) (ps w) k -> nth_error (ms w2) k = nth_error m2 k) /\
+  (forall i, In (Some i) seq -> oget (i_sa i) (ms w2) (ps w) = oget (i_sa i) (ms w) (ps w)).
+Proof.
+  intros nof sfp tfp seq Hok Hc w w1 m2 w2 Hl Hf Hi.
+  assert (Hok1 : forall i, In (Some i) seq -> lawful (i_sa i) (nof i) /\ focused (i_ta i) (nof i) (tfp i)).
+  { intros i Hin. destruct (Hok i Hin) as (F & _ & G). split; [exact (f_lawful _ _ _ F)|exact G]. }
+  destruct (forward_spec nof tfp seq Hok1 Hc w w1 Hf) as (A1 & A2 & A3 & A4 & A5 & A6).
+  rewrite A3 in Hi.
+  assert (Hok2 : forall i, In (Some i) seq ->
+            lawful (i_sa i) (nof i) /\ framed (i_sa i) (nof i) (sfp i) /\ transports (i_sa i) (sfp i)).
+  { intros i Hin. destruct (Hok i Hin) as (F & T & _).
+    split; [exact (f_lawful _ _ _ F)|]. split; [exact (f_framed _ _ _ F)|exact T]. }
+  destruct (inverse_transport nof sfp (ms w) (ps w) (mt w1) (pt w) seq Hok2 A5 m2 w2 Hl Hi)
+    as (B1 & B2 & B3 & B4 & B5 & B6).
+  split; [exact B1|]. split; [exact B4|]. split; [exact B5|]. split; [exact B6|].
+  intros i Hin. destruct (Hok i Hin) as (F & _ & _). apply (f_reads _ _ _ F); [congruence|].
+  intros k Hk. apply B5. clear - Hin Hk. induction seq as [|[j|] r IH]; [destruct Hin| |].
+  - change (flat_map sfp (isos (Some j :: r))) with (sfp j ++ flat_map sfp (isos r)). apply inside_app.
+    destruct Hin as [E|Hin]; [inversion E; subst; left; exact Hk|right; exact (IH Hin)].
+  - destruct Hin as [E|Hin]; [discriminate|exact (IH Hin)].
+Qed.
